@@ -18,6 +18,8 @@ type Def struct {
 	Weight  float64
 	Tags    []string
 	Opts    map[string]string
+	// BlankTags: an add without tags written with a quoted tag list of white space only (tags " "): no tags
+	BlankTags string
 }
 
 type Target struct {
@@ -306,6 +308,8 @@ func (d Def) Text() string {
 		}
 		if len(d.Tags) > 0 {
 			b.WriteString(" tags " + q(strings.Join(d.Tags, ",")))
+		} else if d.BlankTags != "" {
+			b.WriteString(" tags " + q(d.BlankTags))
 		}
 		if len(d.Opts) > 0 {
 			var ks []string
